@@ -57,6 +57,9 @@ pub struct Seg {
     pub ip_opts: Vec<u8>,
     pub flow_label: u32,
     pub urg_ptr: u16,
+    /// Ethernet destination + source address (12 bytes) used when the segment is Ethernet-framed; empty = default
+    #[serde(default)]
+    pub eth: Vec<u8>,
 }
 
 impl Seg {
@@ -77,6 +80,7 @@ impl Seg {
             ip_opts: vec![],
             flow_label: 0,
             urg_ptr: 0,
+            eth: vec![],
         }
     }
 }
@@ -196,7 +200,22 @@ pub fn ip_bytes(s: &Seg) -> Vec<u8> {
 
 pub fn frame(s: &Seg, framing: Framing) -> Vec<u8> {
     let ip = ip_bytes(s);
-    wrap(&ip, s.src.is_v4(), framing)
+    let mut f = wrap(&ip, s.src.is_v4(), framing);
+    if framing == Framing::Ethernet && s.eth.len() == 12 {
+        f[..12].copy_from_slice(&s.eth);
+    }
+    f
+}
+
+/// Ethernet addresses a simulated NIC may have: mostly ordinary, sometimes chosen to look like
+/// something else to a framing heuristic (first bytes 1e 00 = NULL-loopback signature, with an IP
+/// version nibble where the IP header would start; bytes that spell an EtherType).
+pub fn mac(r: &mut crate::rng::Rng) -> [u8; 6] {
+    match r.below(8) {
+        0 => [0x1e, 0x00, r.u8(), r.u8(), (*r.pick(&[0x40u8, 0x60, 0x45])) | (r.u8() & 0x0f), r.u8()],
+        1 => [0x02, r.u8(), 0x08, 0x00, 0x45, r.u8()],
+        _ => [0x02 | (r.u8() & 0xfc), r.u8(), r.u8(), r.u8(), r.u8(), r.u8()],
+    }
 }
 
 pub fn wrap(ip: &[u8], v4: bool, framing: Framing) -> Vec<u8> {
